@@ -1,3 +1,2 @@
-import FluteModel.Drv.Util
--- stub: engine `e2e` not built yet
-def main : IO Unit := Flute.Drv.runDriver () (fun _ _ => ((), "bad-op"))
+import FluteModel.Drv.E2e
+def main : IO Unit := Flute.Drv.runDriver ({} : Flute.Drv.E2e.St) Flute.Drv.E2e.step
